@@ -566,7 +566,7 @@ func TestVerifC19(t *testing.T) {
 	m.Set("disagreements_checked", int(m.Counter("struct_pairs_compared")+m.Counter("constants_compared")+m.Counter("tuple_keys_compared")+m.Counter("connectivity_slots_probed")))
 	m.Require("struct_pairs_compared", "constants_compared", "generated_files_identical", "param_literal_fields", "sentinel_structs", "go_hostlayout_types")
 	if part != "stub" {
-		m.Require("tuple_keys_compared", "connectivity_slots_probed", "domain_keys_probed", "lpm_keys_probed")
+		m.Require("tuple_keys_compared", "connectivity_slots_probed", "domain_keys_probed", "lpm_keys_probed", "lpm_key_bytes_compared", "tuple_keys_compared_reverse_hooks")
 	}
 	m.Done(t)
 }
@@ -653,6 +653,34 @@ func c19KeysInAction(m *vk.Monitor, k *vk.KS, r interface{ IntN(int) int }) {
 		if found > 0 {
 			m.Count("tuple_keys_compared", int64(found))
 			m.Distinct(fmt.Sprintf("tuplekey|v6=%v|proto=%d", v6, f.Proto))
+		}
+		// the reverse-direction hooks build their keys on another code path (get_tuples on a stack
+		// struct + copy_reversed_tuples): a connection opened from the WAN side is tracked under the
+		// key of its reply direction (local -> remote)
+		wf := vk.Frame{L2: true, Src: mk(), Dst: mk(), Sport: uint16(1024 + r.IntN(60000)), Dport: uint16(1024 + r.IntN(60000)), Payload: 10, Proto: f.Proto, Syn: f.Proto == 6,
+			SrcMac: [6]byte{2, 0, 0, 0, 1, byte(r.IntN(256))}}
+		wdata := wf.Bytes()
+		for _, hook := range []uint8{vk.HookWanIngressL2, vk.HookLanEgressL2} {
+			wf.Sport++
+			wdata = wf.Bytes()
+			k.QPkt(&vk.PktReq{Hook: hook, Protocol: wf.SkbProtocol(), Ifindex: 3, PullMode: vk.PullForceOK, HeadLen: uint32(len(wdata)), Data: wdata})
+			res := k.Sync()
+			if k.Dead() != nil {
+				m.Violation("keys/sanitizer", k.Dead().Error(), nil)
+				return
+			}
+			rk := bpfTuplesKeyFromAddrPorts(netip.AddrPortFrom(wf.Dst, wf.Dport), netip.AddrPortFrom(wf.Src, wf.Sport), wf.Proto)
+			for _, e := range res[len(res)-1].Pkt.Events {
+				if e.Kind == 1 && len(e.Key) == len(verifRaw(&rk)) {
+					m.Eval(1)
+					if !bytes.Equal(e.Key, verifRaw(&rk)) {
+						m.Violation("keys/tuple-reverse-hook", fmt.Sprintf("flow key written by the reverse-direction TC program (hook %d) %x != bpfTuplesKeyFromAddrPorts of the reply direction %x", hook, e.Key, verifRaw(&rk)), map[string]any{"frame": wf.String()})
+						return
+					}
+					m.Count("tuple_keys_compared_reverse_hooks", 1)
+					m.Distinct(fmt.Sprintf("tuplekey-rev|hook%d|v6=%v|proto=%d", hook, v6, wf.Proto))
+				}
+			}
 		}
 	}
 	// (2) connectivity slots by behaviour: clear exactly the slot Go computes; the frame for
@@ -785,6 +813,50 @@ func c19KeysInAction(m *vk.Monitor, k *vk.KS, r interface{ IntN(int) int }) {
 		m.Distinct(fmt.Sprintf("routekey|v6=%v|lpm=%v|domain=%v", v6, inLpm, withDomain))
 	}
 	_ = binary.LittleEndian
+	// (4) prefix keys, byte level: the kernel looks every address up as 16 bytes in network order
+	// (IPv4 embedded as ::ffff:a.b.c.d) with prefixlen 128, so the entry for a prefix of length n
+	// must carry prefixlen n (+96 for IPv4) in native order followed by those 16 bytes; bits past
+	// the prefix length are ignored by the trie and are not compared. Every length of both
+	// families, the mapped forms and the zero-length prefixes.
+	var prefixes []netip.Prefix
+	for n := 0; n <= 32; n++ {
+		prefixes = append(prefixes, netip.PrefixFrom(netip.AddrFrom4([4]byte{203, 0, 113, 0xa5}), n), netip.PrefixFrom(netip.AddrFrom4([4]byte{0, 0, 0, 0}), n))
+	}
+	for n := 0; n <= 128; n++ {
+		prefixes = append(prefixes, netip.PrefixFrom(netip.MustParseAddr("2001:db8:77:1:a5a5:5a5a:ffff:1"), n))
+	}
+	for _, n := range []int{0, 1, 95, 96, 97, 104, 120, 127, 128} {
+		prefixes = append(prefixes, netip.PrefixFrom(netip.MustParseAddr("::ffff:198.51.100.7"), n), netip.PrefixFrom(netip.MustParseAddr("::"), n))
+	}
+	for _, pf := range prefixes {
+		key := cidrToBpfLpmKey(pf)
+		raw := verifRaw(&key)
+		m.Eval(1)
+		wantLen := pf.Bits()
+		if pf.Addr().Is4() {
+			wantLen += 96
+		}
+		a16 := pf.Addr().As16()
+		bad := ""
+		if len(raw) != 20 {
+			bad = fmt.Sprintf("key is %d bytes, struct lpm_key is 20", len(raw))
+		} else if got := binary.NativeEndian.Uint32(raw[:4]); int(got) != wantLen {
+			bad = fmt.Sprintf("prefixlen %d, want %d", got, wantLen)
+		} else {
+			for i := 0; i < wantLen; i++ {
+				if (raw[4+i/8]>>(7-i%8))&1 != (a16[i/8]>>(7-i%8))&1 {
+					bad = fmt.Sprintf("bit %d of the address differs from the 16-byte network-order form %x", i, a16)
+					break
+				}
+			}
+		}
+		if bad != "" {
+			m.Violation("keys/lpm-bytes", fmt.Sprintf("cidrToBpfLpmKey(%v) = % x: %s", pf, raw, bad), map[string]any{"prefix": pf.String(), "key_hex": fmt.Sprintf("%x", raw)})
+			return
+		}
+		m.Count("lpm_key_bytes_compared", 1)
+		m.Distinct(fmt.Sprintf("lpmbytes|v4=%v|mapped=%v|len%d", pf.Addr().Is4(), pf.Addr().Is4In6(), pf.Bits()))
+	}
 }
 
 func ptr[T any](v T) *T { return &v }
